@@ -924,8 +924,8 @@ static void hook_wait_error(struct vk_wait *w, int err)
 		if (last_wait_polled) end_of_dispatch_checks();
 		last_wait_polled = 0;   /* no kernel poll happened: not an iteration for the fd rules */
 		if (ch_n(2)) vk_advance((int64_t[]){ 1, 1000, 1000000, 50000000 }[ch_n(4)]);
+		last_wait_end = vk_now();   /* time may have passed in an interrupted wait: the clock has to be re-read (not so after ENOSYS/EPERM) */
 	}
-	last_wait_end = vk_now();
 }
 static void hook_io_pre(int is_write, int fd, size_t n)
 {
